@@ -82,6 +82,7 @@ pub fn run(ctx: &mut Ctx) {
     ctx.floor("novalue.prefix", 10_000);
     ctx.floor("novalue.curve-type", 254);
     ctx.floor("cas.cases", 3_000);
+    ctx.floor("cas.cross", 65536 * 11);
 
     // ------------------------------------------------ DH
     let n = ctx.tier.pick(16000, 160000);
@@ -192,6 +193,61 @@ pub fn run(ctx: &mut Ctx) {
             }
         }
     });
+
+
+    // ------------------------------------------------ parse_content_and_signature: every algorithm pair, BOTH flag values, on
+    // both encodings. The expectation for the "wrong" flag is computed by the harness from the bytes
+    // (the flag alone selects the form; contents must never switch it).
+    ctx.sweep("cas-cross-form", 256, |ctx, idx| {
+        let mut rng = Rng::new(idx ^ 0xCA5);
+        for s in 0..=255u8 {
+            let h = idx as u8;
+            for (dl, tail) in [(0usize, 0usize), (3, 0), (3, 1), (511, 0), (512, 0), (513, 0), (515, 1), (600, 0), (600, 2), (1024, 0), (70, 0), (65535, 0)] {
+            if dl == 65535 && s % 16 != 0 {
+                continue;
+            }
+            let sg = ASig { alg: Some((h, s)), data: rng.bytes(dl) };
+            let mut input = enc(|w| sg.enc(w));
+            input.extend(rng.bytes(tail));
+            // right flag
+            let r1 = parse_content_and_signature(&input, take_k(0), true);
+            let ok1 = matches!(&r1, Ok((rem, (_, sv))) if *sv == sg.expected() && rem.len() == tail);
+            // wrong flag: legacy reading of the same bytes = u16 length (h<<8|s) then that many bytes
+            let r2 = parse_content_and_signature(&input, take_k(0), false);
+            let l = ((h as usize) << 8) | s as usize;
+            let ok2 = if input.len() >= 2 + l {
+                matches!(&r2, Ok((rem, (_, sv))) if sv.alg.is_none() && sv.data == &input[2..2 + l] && rem.len() == input.len() - 2 - l)
+            } else {
+                r2.is_err()
+            };
+            ctx.evals(2);
+            ctx.count("cas.cross");
+            if !ok1 || !ok2 {
+                ctx.violation(
+                    format!("c13:parse_content_and_signature:cross-form:ext={}", if ok1 { "false" } else { "true" }),
+                    json!({"hash": h, "sign": s, "signature_len": dl, "trailing": tail, "with_flag_true": classify(&r1).show(), "with_flag_false": classify(&r2).show(), "input_hex": hex_short(&input)}),
+                );
+            }
+            // legacy encoding read with the flag set: first two bytes are algorithms, next two a length
+            let old = ASig { alg: None, data: rng.bytes(dl.max(4)) };
+            let mut input = enc(|w| old.enc(w));
+            input.extend(rng.bytes(tail));
+            let r3 = parse_content_and_signature(&input, take_k(0), true);
+            let l2 = ((input[2] as usize) << 8) | input[3] as usize;
+            let ok3 = if input.len() >= 4 + l2 {
+                matches!(&r3, Ok((rem, (_, sv))) if sv.alg.is_some() && sv.data == &input[4..4 + l2] && rem.len() == input.len() - 4 - l2)
+            } else {
+                r3.is_err()
+            };
+            ctx.eval();
+            if !ok3 {
+                ctx.violation("c13:parse_content_and_signature:cross-form:legacy-bytes-with-flag".into(), json!({"outcome": classify(&r3).show(), "input_hex": hex_short(&input)}));
+            }
+            }
+        }
+        ctx.shape(&("cas-cross", idx / 8));
+    });
+    ctx.mark_exhaustive("parse_content_and_signature: all 65536 algorithm pairs under both flag values");
 
     // ------------------------------------------------ parse_content_and_signature
     let n = ctx.tier.pick(12000, 120000);
